@@ -56,6 +56,14 @@ func plan(tier string, seed int64) []driver.Case {
 				}
 			}
 		}
+		// FromChannel over a channel that already holds n values, the observer unsubscribing inside its cut-th callback
+		if len(sc) == 0 {
+			for n := 1; n <= 4; n++ {
+				for cut := 1; cut <= n; cut++ {
+					cases = append(cases, driver.Case{ID: fmt.Sprintf("fromchannel-inside/n%d/cut%d", n, cut), P: map[string]string{"kind": "fromchannel-inside", "n": fmt.Sprint(n), "cut": fmt.Sprint(cut)}})
+				}
+			}
+		}
 		// ToSlice / ToMap / Collect / Materialize∘Dematerialize on the same script
 		cases = append(cases, driver.Case{ID: fmt.Sprintf("values/%s", sc), P: map[string]string{"kind": "values", "script": sc.String()}})
 	}
@@ -295,6 +303,42 @@ func isPrefix(a, b []string) bool {
 	return true
 }
 
+// runFromChannelInside: the channel is buffered and full before the subscription; the observer unsubscribes
+// inside the callback of its cut-th value (once Subscribe has returned, so that the teardown is registered).
+// The operator is inside that callback, not in a receive: not one more value leaves the channel.
+func runFromChannelInside(c driver.Case) driver.Result {
+	n, cut := c.Int("n"), c.Int("cut")
+	res := driver.Result{Verdict: driver.Held, Nontrivial: true}
+	what := fmt.Sprintf("FromChannel over a buffered channel holding %d values, the observer unsubscribes inside the callback of value #%d", n, cut)
+	in := make(chan int, n+1)
+	for i := 0; i < n; i++ {
+		in <- 100 + i
+	}
+	r := rec.New("fromchannel-inside")
+	subscribed := make(chan struct{})
+	var self ro.Subscriber[int]
+	r.OnEvent = func(ev *rec.Event) {
+		if ev.Kind == rec.Next && r.Len()+1 == cut {
+			<-subscribed
+			self.Unsubscribe()
+		}
+	}
+	self = ro.NewSubscriber[int](rec.Raw[int](r))
+	sub := ro.FromChannel((<-chan int)(in)).Subscribe(self)
+	close(subscribed)
+	quiesce.Settle(2 * time.Second)
+	sub.Unsubscribe()
+	left := len(in)
+	res.Events = int64(r.Len()) + 1
+	res.Sig = what
+	res.Sample = map[string]any{"scenario": what, "trace": r.TraceString(), "values_left_in_channel": left}
+	if left < n-cut {
+		res.Verdict, res.Key = driver.Violated, "C17/FromChannel/keeps-reading-after-unsubscribe"
+		res.Msg = fmt.Sprintf("%s: %d values are left in the channel, %d were still there when the observer unsubscribed (delivered: [%s]) - the others were taken out and dropped", what, left, n-cut, r.TraceString())
+	}
+	return res
+}
+
 func runFromChannel(c driver.Case) driver.Result {
 	n, cp, cut := c.Int("n"), c.Int("cap"), c.Int("cut")
 	closeIt := c.Get("closed") == "true"
@@ -514,6 +558,24 @@ func runValues(c driver.Case) driver.Result {
 	if ri.TraceString() != rd.TraceString() {
 		return fail("Materialize-Dematerialize/not-identity", fmt.Sprintf("round trip delivered [%s], the stream is [%s]", ri.TraceString(), rd.TraceString()))
 	}
+	if end == rec.Error {
+		// the same stream ending with an error notification that carries no error value (Error(nil))
+		nilEnd := func() ro.Observable[int] {
+			return ro.NewObservable(func(d ro.Observer[int]) ro.Teardown {
+				for _, v := range vs {
+					d.Next(v)
+				}
+				d.Error(nil)
+				return nil
+			})
+		}
+		ni, nd := rec.New("identity-nil"), rec.New("direct-nil")
+		nilEnd().Subscribe(rec.Raw[int](nd))
+		ro.Dematerialize[int]()(ro.Materialize[int]()(nilEnd())).Subscribe(rec.Raw[int](ni))
+		if ni.TraceString() != nd.TraceString() {
+			return fail("Materialize-Dematerialize/not-identity", fmt.Sprintf("stream ending with Error(nil): round trip delivered [%s], the stream is [%s]", ni.TraceString(), nd.TraceString()))
+		}
+	}
 	res.Events = int64(r.Len()+rm.Len()+ri.Len()) + 1
 	res.Nontrivial = true
 	res.Sig = "values/" + sc.String()
@@ -567,6 +629,8 @@ func runCase(c driver.Case) driver.Result {
 	switch c.Get("kind") {
 	case "fromchannel":
 		return runFromChannel(c)
+	case "fromchannel-inside":
+		return runFromChannelInside(c)
 	case "values":
 		return runValues(c)
 	case "park":
